@@ -909,3 +909,26 @@ def consent_vc(S, prefix='consent'):
 
     S.install(contracts)
     S.run_paths(prefix, body, active=[c.key for c in contracts])
+
+
+
+def leaf_vcs(S):
+    """verify the body of every contract the purge VCs rely on (a change
+    inside a callee is noticed only by the callee's own VC)"""
+    S.install(loops={PARSE_PATH_LOOP: parse_path_loop_annot(),
+                     dates.PARSE_LOOP: dates.parse_loop_annot()})
+    S.verify(PathOfBackupCopy())
+    S.verify(RemoveFile2())
+    S.verify(RemoveFile2NoFaults(), prefix='nofault/remove_file2')
+    S.install([RemoveFile2()])
+    S.verify(RemoveFileIfExists(), active=[RemoveFile2().key])
+    S.verify(ParsePath())
+    S.verify(FilterMatches())
+    S.verify(ParseReply())
+    S.verify(dates.OlderThan())
+    S.verify(dates.ParseDeletionDate())
+    S.verify(dates.MaybeParseDeletionDate())
+    S.verify(dates.ClockNow())
+    deps = [dates.ParseDeletionDate(), dates.ClockNow(), dates.OlderThan()]
+    S.install(deps)
+    S.verify(OkToDelete(), active=[c.key for c in deps])
